@@ -636,3 +636,11 @@ func init() {
 		mutant{Name: "float-variable-divided-by-zero-rejected", Prop: "C02", File: "interp/typecheck.go", Old: "\t\tif zeroConst(c1) && (c0.rval.IsValid() || c0.typ != nil && isInt(c0.typ.TypeOf())) {\n", New: "\t\tif zeroConst(c1) {\n", Rule: "R02.22", Key: "typecheck.binaryExpr/case:aQuo/zero-divisor#1/only-for-constant-or-integer-dividends"},
 	)
 }
+
+func init() {
+	addMutants(
+		// D144 reverted
+		mutant{Name: "redeclared-variable-retyped", Prop: "C01", File: "interp/cfg.go", Old: "\t\t\t\t\t\t\t\t\tdest.typ = sym.typ\n", New: "", Rule: "R01.42", Key: "cfg/case:assignStmt/redeclared#1/keeps-its-type"},
+		mutant{Name: "redeclared-variable-source-not-checked", Prop: "C12", File: "interp/cfg.go", Old: "\t\t\t\t\t\t\t\t\tif !src.typ.assignableTo(sym.typ) {\n\t\t\t\t\t\t\t\t\t\terr = src.cfgErrorf(\"cannot use type %s as type %s in assignment\", src.typ.id(), sym.typ.id())\n\t\t\t\t\t\t\t\t\t\treturn\n\t\t\t\t\t\t\t\t\t}\n", New: "", Rule: "R12.37", Key: "cfg/case:assignStmt/redeclared#1/keeps-its-type"},
+	)
+}
